@@ -1,6 +1,6 @@
 (* C16 - The wire encodings are the CCTP formats and round-trip exactly. *)
 From Cctp Require Import Lib.Bytes Model.Codec Spec.Layout Proofs.CodecFacts.
-From Cctp Require Import Gen.GenLib Gen.Consts Gen.CheckConsts.
+From Cctp Require Import Gen.GenLib Gen.Consts Gen.CheckConsts Gen.CodecIR Gen.CodecGo Gen.CheckCodec.
 
 (* The model's codec is the independent reference layout (literal offsets 0/4/8/12/20/52/84/116 and
    0/4/36/68/100/132, big-endian), on every byte string and every value. *)
@@ -74,11 +74,30 @@ Example C16_example :
   | None => False end.
 Proof. vm_compute. repeat split. Qed.
 
-(* The offset constants of the Go source as it is now (x/cctp/types/constants.go, regenerated on every run) are
-   the numbers of the CCTP layouts. *)
+(* The protocol numbers of the Go source as it is now (x/cctp/types/constants.go, regenerated on every run): message and
+   body version 0, Noble's domain 4, 65-byte signatures. *)
 Theorem C16_go_constants_are_the_layout :
   forallb (fun kv => match assoc (fst kv) go_int_consts with Some v => Z.eqb v (snd kv) | None => false end) expected_ints = true.
 Proof. exact constants_are_the_cctp_layout. Qed.
+
+(* The four codec functions of the Go source as it is now - translated on every run by tools/goextract into the
+   representation of Gen/CodecIR.v (guards, field offsets and widths with the constants resolved by value, readers and
+   writers, temporaries resolved) - are well-formed (nothing the translator could not read; the writes tile the buffer) and
+   mean exactly the model's decoders and encoders, for every byte string and every value.  Together with the layout and
+   round-trip theorems above this ties message.go and burn_message.go to the CCTP formats without going through a test
+   input. *)
+Theorem C16_go_source_translates_to_the_model :
+  (dec_wellformed go_message_parse = true /\ enc_wellformed go_message_bytes = true /\
+   dec_wellformed go_burn_parse = true /\ enc_wellformed go_burn_bytes = true) /\
+  (forall bs, interp_dec go_message_parse bs = option_map message_fields (decode_message bs)) /\
+  (forall m, interp_enc go_message_bytes (env_of (message_fields m)) = encode_message m) /\
+  (forall bs, interp_dec go_burn_parse bs = option_map burn_fields (decode_burn bs)) /\
+  (forall m, interp_enc go_burn_bytes (env_of (burn_fields m)) = encode_burn m).
+Proof.
+  split; [exact translated_codecs_wellformed|].
+  split; [exact go_message_parse_is_model|]. split; [exact go_message_bytes_is_model|].
+  split; [exact go_burn_parse_is_model|exact go_burn_bytes_is_model].
+Qed.
 
 Print Assumptions C16_message_decode_is_layout.
 Print Assumptions C16_go_constants_are_the_layout.
@@ -90,3 +109,4 @@ Print Assumptions C16_burn_decode_encode.
 Print Assumptions C16_message_encode_decode.
 Print Assumptions C16_burn_encode_decode.
 Print Assumptions C16_rejects.
+Print Assumptions C16_go_source_translates_to_the_model.
